@@ -174,10 +174,18 @@ def shrink(check, plan, cls, budget):
 
 
 def load_known(pid):
-    p = V + '/known_findings.json'
-    if not os.path.exists(p):
-        return []
-    return [k for k in json.load(open(p)).get('findings', []) if k.get('property') == pid]
+    """committed lists: known_findings.json and the per-property files known_findings.<ID>.json (same layout).
+    VERIF_KNOWN_FILE (development only) replaces them all by one file."""
+    import glob
+    if os.environ.get('VERIF_KNOWN_FILE'):
+        files = [os.environ['VERIF_KNOWN_FILE']]
+    else:
+        files = [V + '/known_findings.json'] + sorted(glob.glob(V + '/known_findings.C[0-9][0-9].json'))
+    out = []
+    for p in files:
+        if os.path.exists(p):
+            out += [k for k in json.load(open(p)).get('findings', []) if k.get('property') == pid]
+    return out
 
 
 def tree_rev():
@@ -309,7 +317,8 @@ def main_check(check, argv=None):
                 print('note: cannot replay listed finding %s: %s' % (k.get('repro'), e))
     reported = []
     os.makedirs(V + '/replays', exist_ok=True)
-    for cls in sorted(agg['viol'])[:check.max_reported]:
+    shrunk = 0
+    for cls in sorted(agg['viol']):
         lst = sorted(agg['viol'][cls], key=lambda x: len(json.dumps(x[2])))
         vseed, msg, plan = lst[0]
         ok, info = gate(check, plan, cls)
@@ -329,7 +338,9 @@ def main_check(check, argv=None):
             known_hit[pre['what']] = known_hit.get(pre['what'], 0) + len(lst)
             print('KNOWN-FINDING: property=%s %s' % (check.pid, pre['what']))
             continue
-        small, nruns = shrink(check, plan, cls, check.shrink_budget)
+        # every class is reported; only the first max_reported unknown ones are minimised (time budget)
+        shrunk += 1
+        small, nruns = shrink(check, plan, cls, check.shrink_budget if shrunk <= check.max_reported else 0)
         h, viol, res = evaluate(check, small)
         smsg = [m for c, m in viol if c == cls]
         smsg = smsg[0] if smsg else msg
@@ -360,9 +371,6 @@ def main_check(check, argv=None):
         print('VIOLATION property=%s replay=%s' % (check.pid, path))
         reported.append(dict(cls=cls, seed=vseed, msg=smsg, replay=path))
         rc = max(rc, 1)
-    if len(agg['viol']) > check.max_reported:
-        print('note: %d further violation classes not processed: %s' %
-              (len(agg['viol']) - check.max_reported, sorted(agg['viol'])[check.max_reported:]))
     wall = time.time() - t0
     if not a.no_evidence:
         cov = dict(evaluations=agg['evals'], distinct_nontrivial=len(agg['sigs']), rule=check.rule,
